@@ -11,6 +11,10 @@ ops
   ret <id> ok | ret <id> <kind> <hexmsg|->   the running attempt returns; kind plain|net|wnet|ctxc|ctxd|wctxc
   fire <id> | expire <id> | pcancel <id> | shutdown | sdcancel
   delay <i>                             nominal backoff of iteration i in ms
+  wnew                                  fresh Retryer + the real core.WithAsyncRetry wrapping over scripted inner functions
+  wcall <id> <edge 0..4> <duty>         call the wrapped edge function with (duty, set <id>)
+  wret <id> … | wfire <id> | wexpire <id>   as ret / fire / expire, for a call made with wcall
+                                        (start events of these calls also print the pair the inner function was handed)
 answer: events of the op (`-` when none) ` | active=` label:count of the active map, sorted by label text
 -/
 
@@ -88,22 +92,54 @@ def cfgLine : String :=
   " sync=" ++ Driver.joinWith "," syncEdges ++
   " new=past:expired,none:nodeadline,future:deadline"
 
-def stepLine (s : State) (l : String) : State × String :=
-  if l = "cfg" then (s, cfgLine)
-  else if l = "new" then (init, "ok")
+structure DS where
+  st : State := init
+  cap : List (Nat × WCall) := []
+  wire : Bool := false          -- the episode was started with wnew: only w-ops (and cfg / delay / new / wnew)
+
+def capOf (d : DS) (id : Nat) : Option WCall := (d.cap.find? (fun p => p.1 == id)).map (·.2)
+
+def showEvW (d : DS) : Ev → String
+  | .start id i e =>
+    match capOf d id with
+    | some w => s!"start:{id}:{i}:x{if e then 1 else 0}:d{w.duty}/s{w.set}@{labelName w.edge}"
+    | none => showEv (.start id i e)
+  | e => showEv e
+
+def answer (d : DS) (r : State × List Ev) : String :=
+  let evs := if r.2.isEmpty then "-" else Driver.joinWith " " (r.2.map (showEvW d))
+  s!"{evs} | active={showActive r.1}"
+
+def stepLine (d : DS) (l : String) : DS × String :=
+  if l = "cfg" then (d, cfgLine)
+  else if l = "new" then ({}, "ok")
+  else if l = "wnew" then ({ wire := true }, "ok")
   else match l.splitOn " " with
   | ["delay", i] =>
     match i.toNat? with
-    | some i => (s, s!"delay {nominalDelayMs i}")
-    | none => (s, "bad-op")
+    | some i => (d, s!"delay {nominalDelayMs i}")
+    | none => (d, "bad-op")
+  | ["wcall", id, edge, duty] =>
+    match id.toNat?, edge.toNat?, duty.toNat? with
+    | some id, some edge, some duty =>
+      if edge < 5 ∧ duty < 1000000 ∧ d.wire then
+        let w : WCall := { edge := edge, duty := duty, set := id }
+        let fresh := (d.st.calls id).isNone
+        let r := step d.st (w.op id)
+        let d' : DS := { d with st := r.1, cap := if fresh then (id, w) :: d.cap else d.cap }
+        (d', answer d' r)
+      else (d, "bad-op")
+    | _, _, _ => (d, "bad-op")
   | _ =>
-    match parseOp l with
-    | none => (s, "bad-op")
+    let isW := l.startsWith "wret " || l.startsWith "wfire " || l.startsWith "wexpire "
+    let l' := if isW then (l.drop 1).toString else l
+    if l.startsWith "wcall" || isW != d.wire then (d, "bad-op") else
+    match parseOp l' with
+    | none => (d, "bad-op")
     | some o =>
-      let r := step s o
-      let evs := if r.2.isEmpty then "-" else Driver.joinWith " " (r.2.map showEv)
-      (r.1, s!"{evs} | active={showActive r.1}")
+      let r := step d.st o
+      ({ d with st := r.1 }, answer d r)
 
 end Driver.Retry
 
-def main : IO Unit := Driver.runLoop Driver.Retry.stepLine CharonV.Retry.init
+def main : IO Unit := Driver.runLoop Driver.Retry.stepLine ({} : Driver.Retry.DS)
